@@ -9,8 +9,23 @@ level and hash function:
   gc_deletes_only_queued  a GC pass deletes exactly the keys staged by the previous pass and stages the queue:
                           a hash is removed from storage no earlier than the second pass after it was queued
   gc_batch_then_queue     two passes after a commit delete exactly what was queued before the first one
+  root_read_is_harmless   Root() before Commit(lvl): same batch, same trie in memory, same created list (fix 8a63293)
+  reopen_answers          if every node of the spec trie t is in storage under its hash with its honest serialization,
+                          then a trie opened from just (hash t, weight t) produces for every block 1..weight the owner
+                          key and exactly the honest proof of t, and that proof verifies to (hash t, owner's value)
+  C11_recoverable (def) / C11_recoverable_false
+                          the full statement is FALSE: equal content under two keys, delete one, commit, two GC passes
+                          (open finding C11-F2); the same history with different values is recoverable (example)
+Not proved here: that a commit batch stores every node (`StoredAll` after commit) and that GC never deletes a node of
+the current trie when no two positions have equal content — see notes/C11.md; both are checked by the correspondence run
+and the reopen oracle on every history.
 -/
 import Verif.Lemmas.WmptOps
+import Verif.Lemmas.WmptCommit
+import Verif.Lemmas.WmptReopen
+import Verif.Lemmas.WmptSpec
+import Verif.Model.WmptHistory
+import Verif.Model.WmptToy
 namespace Verif.Props.C11
 open Verif.Wmpt
 
@@ -48,5 +63,71 @@ theorem gc_batch_then_queue (t : WT) (k : Bytes) :
   rw [(gc_deletes_only_queued (deleteNodes t).1).1]
   rw [← (gc_deletes_only_queued t).2.1 k]
   simp
+
+/-- reading the root hash of a modified trie before committing does not change what the commit writes -/
+theorem root_read_is_harmless (H : Bytes → Bytes) (t : WT) (lvl : Int) :
+    (commit H (rootHash H t).1 lvl).2 = (commit H t lvl).2 ∧
+    (commit H (rootHash H t).1 lvl).1.root = (commit H t lvl).1.root ∧
+    (commit H (rootHash H t).1 lvl).1.created = (commit H t lvl).1.created :=
+  ⟨(commit_after_root H t lvl).1, (commit_after_root H t lvl).2.1, (commit_after_root H t lvl).2.2.1⟩
+
+/-- a trie reopened from (root hash, weight) on a storage that holds every node answers like the spec trie:
+    for every block the owner's key, the honest proof bytes, and the proof verifies -/
+theorem reopen_answers (H : Bytes → Bytes) (hlen : ∀ x, (H x).length = 32) (s : Store) (t : PT) (b fuel : Nat)
+    (hst : StoredAll H s t) (hw : t.weight < 2 ^ 64) (hsz : PTSize t) (hb1 : 1 ≤ b) (hb : b ≤ t.weight)
+    (hf : 2 * t.depth ≤ fuel) :
+    ∃ k v, ownerSpec t.entries b = some (k, v) ∧
+      (getBlockProof H true s fuel (.hashRef (PT.hash H t) t.weight) b []).res =
+        .ok (k, (t.proofPairs H b).map Cbor.encBase) ∧
+      verifyPairs H ((t.proofPairs H b).map PairD.ok) b = .ok (t.hash H, v) := by
+  obtain ⟨k, v, ho, hp, hv⟩ := reopen_verifies H hlen s t b fuel hst hw hsz hb1 hb hf
+  rw [owner_eq_ownerSpec t b hb1 hb] at ho
+  exact ⟨k, v, ho, hp, hv⟩
+
+/-! ### the full statement and its refutation (open finding C11-F2) -/
+
+def HOp.keyOK : HOp → Prop
+  | .upd key _ _ => key.length = 64
+  | .del key => key.length = 64
+  | _ => True
+
+/-- Full statement: after any history that ends committed (whatever was updated, deleted, re-added, whatever hash reads
+    and GC passes happened, at whatever collapse levels), a trie reopened from just (root hash, weight) on the same
+    storage is observationally identical to the live one — unless two different stored nodes collide under H. -/
+def C11_recoverable : Prop :=
+  ∀ (H : Bytes → Bytes) (ops : List HOp), (∀ x, (H x).length = 32) → (∀ op ∈ ops, HOp.keyOK op) →
+    (hrun H ops).t.root.dirty = false →
+    ¬ CollisionIn H (putPreimages H (hrun H ops).puts) →
+    sameAnswers H (reopen H (hrun H ops).t) (hrun H ops).t
+
+def keyA : List Nib := List.replicate 64 1
+def keyD : List Nib := 2 :: List.replicate 63 4
+
+/-- two keys with byte-equal (value, weight); delete one; commit; two GC passes -/
+def opsF2 : List HOp :=
+  [.upd keyA [1, 0xee] 2, .upd keyD [1, 0xee] 2, .commit (-1), .del keyA, .commit (-1), .gc, .gc]
+
+set_option maxRecDepth 1000000 in
+/-- the live trie still answers for its remaining key, the reopened one cannot: the shared value node is gone -/
+theorem opsF2_breaks :
+    (hrun toyH opsF2).t.root.dirty = false ∧
+    ¬ CollisionIn toyH (putPreimages toyH (hrun toyH opsF2).puts) ∧
+    ¬ sameAnswers toyH (reopen toyH (hrun toyH opsF2).t) (hrun toyH opsF2).t := by
+  decide
+
+set_option maxRecDepth 1000000 in
+/-- the same history with two DIFFERENT values is recoverable: the failure above is due to the shared node only -/
+example :
+    let ops : List HOp := [.upd keyA [1, 0xee] 2, .upd keyD [2, 0xee] 3, .commit (-1), .del keyA, .commit (-1), .gc, .gc]
+    sameAnswers toyH (reopen toyH (hrun toyH ops).t) (hrun toyH ops).t ∧ (hrun toyH ops).t.weight = 3 := by
+  decide
+
+theorem C11_recoverable_false : ¬ C11_recoverable := by
+  intro h
+  have hk : ∀ op ∈ opsF2, HOp.keyOK op := by
+    intro op hop
+    simp only [opsF2, List.mem_cons, List.not_mem_nil, or_false] at hop
+    rcases hop with h | h | h | h | h | h | h <;> subst h <;> simp [HOp.keyOK, keyA, keyD]
+  exact opsF2_breaks.2.2 (h toyH opsF2 (fun x => by simp [toyH, be256]) hk opsF2_breaks.1 opsF2_breaks.2.1)
 
 end Verif.Props.C11
